@@ -418,3 +418,9 @@ def shrink_candidates(case):
             continue
         s["steps"] = s["plan"][0]["steps"]
         yield cand
+
+
+def finalize(coverage, tier):
+    coverage["scenarios_run"] = coverage["evaluations"]
+    coverage["evaluations"] = int(coverage.get("crash_states_restarted", coverage["evaluations"]))
+    coverage["distinct_nontrivial"] = int(coverage.get("distinct_crash_sites", 0))
